@@ -106,7 +106,7 @@ func VerifyFunc(ld *Loader, pkg *Pkg, key string) (res *FuncResult) {
 	vc.strLits = map[string]Term{}
 	vc.revealAll = ct.Reveal
 	res.VC = vc
-	if ct.Trusted || ct.Inline || (ct.Havoc && len(ct.Ensures) == 0 && len(ct.Returns) == 0) {
+	if ct.Trusted || ct.Inline || (ct.Havoc && len(ct.Ensures) == 0 && len(ct.Returns) == 0 && len(ct.AssertBefore) == 0) {
 		// havoc contracts promise nothing, so there is nothing to verify; a
 		// havoc contract that does promise something (ensures / return
 		// clauses) is checked against the body like any other
@@ -159,6 +159,9 @@ func VerifyFunc(ld *Loader, pkg *Pkg, key string) (res *FuncResult) {
 			res.Unsup = msg
 			// every obligation of the function counts as failed
 			vc.obls = append(vc.obls, &Obligation{Name: fnName + "#subset", Kind: "subset", Func: fnName, Failed: msg, Goal: tFalse})
+			if ct.Havoc {
+				vc.obls = havocKeep(ct, vc.obls, -1)
+			}
 			res.Obls = vc.obls
 		}
 	}()
@@ -170,7 +173,7 @@ func VerifyFunc(ld *Loader, pkg *Pkg, key string) (res *FuncResult) {
 		// with return clauses only, what comes after the last promised return's
 		// top-level statement cannot run before it: its obligations support nothing
 		limit := -1
-		if len(ct.Ensures) == 0 {
+		if len(ct.Ensures) == 0 && len(ct.AssertBefore) == 0 {
 			want := map[int]bool{}
 			for _, rc := range ct.Returns {
 				var k int
@@ -193,22 +196,7 @@ func VerifyFunc(ld *Loader, pkg *Pkg, key string) (res *FuncResult) {
 				})
 			}
 		}
-		var keep []*Obligation
-		for _, o := range vc.obls {
-			if limit >= 0 && o.Kind != "return" && o.Pos.IsValid() && o.Pos.Offset >= limit {
-				continue
-			}
-			switch o.Kind {
-			case "bounds", "nilmap", "nilptr", "div0", "shift", "panic", "overflow", "decreases":
-				// the body's own safety: not promised (an execution that panics
-				// returns nothing, the promised clauses are partial-correctness)
-			default:
-				// the promised clauses and what their proof rests on (loop
-				// invariants, callee preconditions, frames)
-				keep = append(keep, o)
-			}
-		}
-		vc.obls = keep
+		vc.obls = havocKeep(ct, vc.obls, limit)
 	}
 	res.Obls = vc.obls
 	res.Final = x.final
@@ -601,4 +589,34 @@ func (x *Exec) refinementObligations(final *State, post *SpecEnv) {
 			x.obligeNamed(st, fmt.Sprintf("refine-pre[%s][%d]", key, i), "refine", pre.evalBool(r.Expr), x.fd.Pos(), "interface precondition implies: "+r.Text)
 		}
 	}
+}
+
+// havocKeep: the obligations of a havoc contract's body that are checked: the
+// promised clauses and what their proof rests on; with assert-before clauses
+// only, just those (they depend on nothing but the path to the call).
+func havocKeep(ct *FuncContract, obls []*Obligation, limit int) []*Obligation {
+	onlyCallArgs := len(ct.Ensures) == 0 && len(ct.Returns) == 0
+	var keep []*Obligation
+	for _, o := range obls {
+		if limit >= 0 && o.Kind != "return" && o.Pos.IsValid() && o.Pos.Offset >= limit {
+			continue
+		}
+		if onlyCallArgs {
+			switch o.Kind {
+			case "callarg", "subset", "exists":
+				keep = append(keep, o)
+			}
+			continue
+		}
+		switch o.Kind {
+		case "bounds", "nilmap", "nilptr", "div0", "shift", "panic", "overflow", "decreases":
+			// the body's own safety: not promised (an execution that panics
+			// returns nothing, the promised clauses are partial-correctness)
+		default:
+			// the promised clauses and what their proof rests on (loop
+			// invariants, callee preconditions, frames)
+			keep = append(keep, o)
+		}
+	}
+	return keep
 }
